@@ -285,6 +285,17 @@ def emit_fn(out, item, contract, mode, file, container, info, no_pub=False, cana
         "trusted_reason": c.trusted if c else None,
         "degraded": degraded, "termination_unproved": no_decreases,
     })
+    if c and c.trusted and has_body:
+        # a function left outside the verifier's reach carries an ASSUMED contract; its body is pinned by hash so that a
+        # change cannot go unnoticed (reported as a structural obligation: needs a reproducing witness to be a violation)
+        pins = load_pins()
+        want = pins.get(fkey)
+        labels = sorted({l for cl in (c.ensures + c.requires) for l in cl.labels}) or sorted(set(c.pin_labels))
+        info.setdefault("structural", []).append({
+            "item": fkey, "labels": labels, "ok": (want is None) or (want == sha),
+            "have": [sha], "want": [want],
+            "clause": "body of the trusted function `%s` is the one its assumed contract was written for (sha256 pin)" % fkey})
+        info.setdefault("pins_seen", {})[fkey] = sha
     start_line = out.lineno()
     out.add("// @fn %s [%s]" % (fkey, "trusted" if trusted else "verify"))
     if trusted and has_body:
@@ -335,6 +346,18 @@ def emit_fn(out, item, contract, mode, file, container, info, no_pub=False, cana
         out.add("}", fn=fkey)
     out.add("")
     return fkey, (start_line, out.lineno() - 1)
+
+
+_PINS = None
+
+
+def load_pins():
+    global _PINS
+    if _PINS is None:
+        import json
+        p = os.path.join(VERIF, "contracts", "pins.json")
+        _PINS = json.load(open(p)) if os.path.exists(p) else {}
+    return _PINS
 
 
 def variant_uses(sf):
@@ -399,6 +422,7 @@ def generate(unit_name, repo=None, extra_fn_hook=None, canary=False, findings=Fa
     out = Out()
     info = {"unit": unit_name, "functions": [], "dropped": [], "items": [], "shim": unit.get("shim", []),
             "variant_uses": []}
+    out.add("#![feature(allocator_api)]")
     out.add("#![allow(unused)]")
     out.add("use vstd::prelude::*;")
     for u in unit.get("uses", ["use std::collections::{HashMap, HashSet};"]):
